@@ -100,8 +100,8 @@ def compileFn (f : Gen.DigestFn) : Option Table :=
     let ts ← c.args.mapM fun a => parseExpr a.expr
     pure (c.versions, ts)
 
-def offerTable : Option Table := compileFn Gen.ticketOfferDigest
-def orderTable : Option Table := compileFn Gen.ticketOrderDigest
+def offerTable : Option Table := compileFn Gen.C14.ticketOfferDigest
+def orderTable : Option Table := compileFn Gen.C14.ticketOrderDigest
 
 /-- Go `switch v { case …: }`: the first clause listing `v` -/
 def lookupCase (tbl : Table) (v : Nat) : Option (List Term) :=
@@ -137,9 +137,9 @@ def preimageOf (tbl : Option Table) (t : Ticket) : Except Err Bytes :=
 /-- bytes hashed by `Ticket.OfferDigest` -/
 def offerPreimage (t : Ticket) : Except Err Bytes := preimageOf offerTable t
 
-def stateOffered := Gen.sidecarStateOffered
-def stateRegistered := Gen.sidecarStateRegistered
-def stateOrdered := Gen.sidecarStateOrdered
+def stateOffered := Gen.C14.sidecarStateOffered
+def stateRegistered := Gen.C14.sidecarStateRegistered
+def stateOrdered := Gen.C14.sidecarStateOrdered
 
 /-- bytes hashed by `Ticket.OrderDigest` (guard `t.State < StateOrdered || t.Order == nil` first) -/
 def orderPreimage (t : Ticket) : Except Err Bytes :=
@@ -219,9 +219,9 @@ def verifyOrder (H : Bytes → Bytes) (t? : Option Ticket) : Except Err Unit :=
 
 /-! ## order/interfaces.go: CheckOfferParams / CheckOfferParamsForOrder -/
 
-def baseUnit : Int := Gen.orderBaseSupplyUnit
-def inbound := Gen.orderBTCInboundLiquidity
-def outbound := Gen.orderBTCOutboundLiquidity
+def baseUnit : Int := Gen.C14.orderBaseSupplyUnit
+def inbound := Gen.C14.orderBTCInboundLiquidity
+def outbound := Gen.C14.orderBTCOutboundLiquidity
 
 /-- `CheckOfferParams(auctionType, capacity, pushAmt, baseSupplyUnit)` -/
 def checkOfferParams (auctionType : Nat) (capacity pushAmt base : Int) : Option Err :=
